@@ -38,7 +38,7 @@ ASSUMPTIONS = [
     "original table, finds it within 1e3 x tolerance of its threshold (knife edge); every other difference is a violation",
 ]
 
-FS = 100.0
+FS = 102.4         # a non-integer sampling rate
 TOL = {"ssi": 1e-8, "fdd": 1e-9, "plscf": 1e-4}
 TOL_FIT = 1e-6
 TOL_UNIT = 1e-12
